@@ -30,6 +30,19 @@ def seeded(ctx, n, big):
             steps.append({"method": rng.choice(["POST", "PUT", "GET"]), "framing": rng.choice(["declared", "chunked"]), "size": size,
                           "hdrs": rng.sample(["X-A", "X-B2", "Content-Type", "X-C", "Accept"], rng.randint(0, 4)), "scripts": scripts})
         out.append({"id": "rnd-%d" % i, "cfg": cfg, "steps": steps})
+    # the built-in budget of 10 retries is what ends the retrying: expressions without (or with a large) attempt bound
+    for i in range(6 if not big else 30):
+        mem = rng.choice([1, 16, 4096])
+        ast = rng.choice([{"k": "code", "op": "==", "c": 503}, {"k": "code", "op": ">=", "c": 500},
+                          {"k": "and", "l": {"k": "code", "op": "==", "c": 503}, "r": {"k": "attempts", "op": "<", "c": rng.choice([11, 12, 50])}}])
+        cfg = {"memReq": mem, "maxReq": -1, "memResp": 64, "maxResp": -1, "ast": ast, "expr": BC.render(ast)}
+        steps = []
+        for _ in range(4):
+            scripts = [{"status": 503, "writes": [2], "read": rng.choice(["half", "all", "all", "none"]), "mut": rng.choice(["none", "hdr", "url"])}
+                       for _k in range(12)]
+            steps.append({"method": "POST", "framing": rng.choice(["declared", "chunked"]), "size": rng.choice([1, mem, mem + 7, 1024]),
+                          "hdrs": ["X-A", "X-B2"], "scripts": scripts})
+        out.append({"id": "budget-%d" % i, "cfg": cfg, "steps": steps})
     return out
 
 
